@@ -722,7 +722,8 @@ def search_failing_input(ck, prop, profile, max_cases=6, reseeds=120):
     """After a correspondence failure with no oracle failure: re-run the disagreeing scenarios under
     many random states (and the scenarios around them) looking for returned values that contradict
     the reference semantics."""
-    if not ck.corr_failures or ck.oracle_failures:
+    known_sigs = {k["signature"] for k in ck.known if k.get("status") == "known"}
+    if not ck.corr_failures or [f for f in ck.oracle_failures if f["signature"] not in known_sigs]:
         return 0
     cases = sorted(ck.corr_failures, key=lambda f: len(json.dumps(f["case"], default=str)))[:max_cases]
     extra = []
